@@ -373,38 +373,48 @@ fn le64(v: u64) -> [u8; 8] {
 /// One stored, zero-filled entry of `size` bytes whose local header sits at `offset`;
 /// `force`: put every field into the central ZIP64 block even if it would fit.
 pub fn foreign_big(offset: u64, size: u64, force: bool) -> SparseFile {
+    foreign_big_m(offset, size, size, 0, force)
+}
+
+/// The general form: `csize` zero bytes stored as the entry's data under `method`, claiming `usize_` uncompressed bytes
+/// (for method 0 the two are equal; for other methods the payload is opaque - raw copies never decode it).
+pub fn foreign_big_m(offset: u64, csize: u64, usize_: u64, method: u16, force: bool) -> SparseFile {
     let mut sf = SparseFile::new();
     sf.seek(SeekFrom::Start(offset)).unwrap();
-    let crc = crc32::crc32_zeros(size);
-    let size64 = size >= G4 - 1 || force;
+    let crc = crc32::crc32_zeros(usize_);
+    let c64 = csize >= G4 - 1 || force;
+    let u64_ = usize_ >= G4 - 1 || force;
+    let size64 = c64 || u64_;
     let off64 = offset >= G4 - 1 || force;
-    // local header
+    // local header (a local ZIP64 block always carries both sizes)
     put(&mut sf, &le32(0x04034b50));
     put(&mut sf, &le16(45));
     put(&mut sf, &le16(0));
-    put(&mut sf, &le16(0));
+    put(&mut sf, &le16(method));
     put(&mut sf, &le16(0x6000));
     put(&mut sf, &le16(0x5821));
     put(&mut sf, &le32(crc));
-    put(&mut sf, &le32(if size64 { 0xffff_ffff } else { size as u32 }));
-    put(&mut sf, &le32(if size64 { 0xffff_ffff } else { size as u32 }));
+    put(&mut sf, &le32(if size64 { 0xffff_ffff } else { csize as u32 }));
+    put(&mut sf, &le32(if size64 { 0xffff_ffff } else { usize_ as u32 }));
     put(&mut sf, &le16(3));
     put(&mut sf, &le16(if size64 { 20 } else { 0 }));
     put(&mut sf, b"big");
     if size64 {
         put(&mut sf, &le16(1));
         put(&mut sf, &le16(16));
-        put(&mut sf, &le64(size));
-        put(&mut sf, &le64(size));
+        put(&mut sf, &le64(usize_));
+        put(&mut sf, &le64(csize));
     }
     let data = sf.stream_position().unwrap();
-    sf.seek(SeekFrom::Start(data + size)).unwrap();
+    sf.seek(SeekFrom::Start(data + csize)).unwrap();
     // central
     let cd = sf.stream_position().unwrap();
     let mut z = vec![];
-    if size64 {
-        z.extend_from_slice(&le64(size));
-        z.extend_from_slice(&le64(size));
+    if u64_ {
+        z.extend_from_slice(&le64(usize_));
+    }
+    if c64 {
+        z.extend_from_slice(&le64(csize));
     }
     if off64 {
         z.extend_from_slice(&le64(offset));
@@ -413,12 +423,12 @@ pub fn foreign_big(offset: u64, size: u64, force: bool) -> SparseFile {
     put(&mut sf, &le16((3 << 8) | 45));
     put(&mut sf, &le16(45));
     put(&mut sf, &le16(0));
-    put(&mut sf, &le16(0));
+    put(&mut sf, &le16(method));
     put(&mut sf, &le16(0x6000));
     put(&mut sf, &le16(0x5821));
     put(&mut sf, &le32(crc));
-    put(&mut sf, &le32(if size64 { 0xffff_ffff } else { size as u32 }));
-    put(&mut sf, &le32(if size64 { 0xffff_ffff } else { size as u32 }));
+    put(&mut sf, &le32(if c64 { 0xffff_ffff } else { csize as u32 }));
+    put(&mut sf, &le32(if u64_ { 0xffff_ffff } else { usize_ as u32 }));
     put(&mut sf, &le16(3));
     put(&mut sf, &le16(if z.is_empty() { 0 } else { 4 + z.len() as u16 }));
     put(&mut sf, &le16(0));
